@@ -9,7 +9,13 @@
 #define M 0
 #endif
 #define MM ((M) > 0 ? (M) : 1)
-struct inputs { struct st s; uint8_t val[MM]; uint32_t p0; };
+struct inputs { struct st s; uint8_t val[MM]; uint32_t p0; uint32_t limit; };
+#ifdef WITH_LIMIT
+/* C09: ada::get_max_input_length() is replaced by a stub returning the symbolic limit of this query
+ * (replay on the real code calls ada::set_max_input_length instead) */
+static uint32_t vk_limit_value = 0xffffffffu;
+uint32_t X__ZN3ada20get_max_input_lengthEv(void) { return vk_limit_value; }
+#endif
 
 static void st_pack(const struct st* s, uint8_t* o) {
   for (unsigned i = 0; i < 8; i++) { o[4 * i] = (uint8_t)s->c[i]; o[4 * i + 1] = (uint8_t)(s->c[i] >> 8); o[4 * i + 2] = (uint8_t)(s->c[i] >> 16); o[4 * i + 3] = (uint8_t)(s->c[i] >> 24); }
@@ -33,6 +39,14 @@ void harness(void) {
   ASSUME(INV(&pre));
 #ifdef PRE
   ASSUME(PRE);
+#endif
+#ifdef WITH_LIMIT
+  const uint32_t LIMIT = I.limit;
+  ASSUME(pre.L <= LIMIT);           /* the URL we start from was handed out under the same limit */
+  vk_limit_value = LIMIT;
+#ifdef VK_REAL_CODE
+  vk_set_limit(0, 0, 0, 0, LIMIT, 0);
+#endif
 #endif
   uint8_t in[36 + NN + MM];
   st_pack(&pre, in);
